@@ -118,6 +118,15 @@ def d_lazy_requires():
     >>> raise RuntimeError('needs a module that is not there')
     """
 
+def d_requires_env():
+    """
+    Runs only while an environment variable is set: what counts is the environment at the moment of THIS run
+
+    >>> # xdoctest: +REQUIRES(env:XDVERIF_C11_FLAG)
+    >>> print('guarded code ran')
+    guarded code ran
+    """
+
 def d_annotates():
     """
     An annotated assignment at the top level of a doctest records the annotation in __annotations__ of ITS namespace
@@ -303,12 +312,21 @@ def history_search(ctx):
             fresh = collect() if hi % 4 == 0 else None
             for pos, name in enumerate(hist):
                 ex = (fresh or objs)[name]
+                # the environment changes between the runs (the harness flips a variable): a doctest that asks for it is judged by
+                # the environment of its own run, however often the same object was run before
+                flag = (hi * 7 + pos * 3) % 5 < 2
+                if flag:
+                    os.environ['XDVERIF_C11_FLAG'] = '1'
+                else:
+                    os.environ.pop('XDVERIF_C11_FLAG', None)
                 obs = observe(ex, dflt)
                 ctx.evaluations += 1
-                key = (name, None if dflt_pristine is None else tuple(sorted(dflt_pristine.items())))
+                key = (name, None if dflt_pristine is None else tuple(sorted(dflt_pristine.items())), flag if name == 'd_requires_env' else None)
                 problem = None
                 verdict = 'skipped' if (obs[0] == 'raised' and obs[1] == 'Skipped') else obs[0]     # an all-skipped doctest ends in pytest's Skipped
-                if name in EXPECT_VERDICT and verdict != EXPECT_VERDICT[name]:
+                if name == 'd_requires_env' and verdict != ('passed' if flag else 'skipped'):
+                    problem = 'doctest d_requires_env is %s after %r although XDVERIF_C11_FLAG is %s at this run' % (verdict, hist[:pos], 'set' if flag else 'not set')
+                elif name in EXPECT_VERDICT and verdict != EXPECT_VERDICT[name]:
                     problem = 'doctest %s is %s after %r; run alone in a fresh process it is %s by construction' % (name, verdict, hist[:pos], EXPECT_VERDICT[name])
                 elif key not in baseline:
                     baseline[key] = obs
@@ -342,7 +360,7 @@ def history_search(ctx):
             ctx.nontrivial += 1
         ctx.count('histories', len(histories))
         ctx.count('distinct (doctest, defaults) baselines', len(baseline))
-        ctx.extra['baselines'] = {'%s|%s' % k: list(v[:2]) for k, v in list(baseline.items())[:40]}
+        ctx.extra['baselines'] = {'|'.join(str(x) for x in k): list(v[:2]) for k, v in list(baseline.items())[:40]}
     finally:
         shutil.rmtree(tmp, ignore_errors=True)
         sys.modules.pop('xdverif_c11_mod', None)
